@@ -22,7 +22,7 @@ STRATA = [
     ("reduce", 0, 3),
     ("reduce-planted", 6, 64),
     ("suite", 0, 1),
-    ("enum-reduce", 6, 48),
+    ("enum-reduce", 16, 64),
 ]
 REQUIRED_EVENTS = {"any": ["l2.reduce_db-above-threshold", "l2.learned-vs-known-model", "c01.models-checked", "c01.distinctness-checked", "l2.analyze", "l2.unassign_to", "l2.learned-checked"],
                    "thorough": ["c01.models-checked", "c01.distinctness-checked", "l2.analyze", "l2.unassign_to",
